@@ -205,6 +205,55 @@ func (c c11) Execute(p *core.Plan) *core.Result {
 		if perr != nil || oerr != nil || !bytes.Equal(base, poisoned) || !bytes.Equal(base, other) {
 			res.Violate(fmt.Sprintf("C11/type%d/not-pure", s.Type), fmt.Sprintf("fixed-blind request creation is not a pure function of its arguments (poison: %v, other stream: %v)", perr, oerr), -1)
 		}
+		// type 5: element i of the batch request is a function of (nonce i, blind i) alone — it
+		// equals the element of the one-token request made from them
+		if s.Type == 5 && len(s.Nonces) > 1 {
+			w.Ent.Begin("client", fmt.Sprintf("s%d/pure/single", s.ID))
+			w.Ent.SetFault(entropy.Fault{Kind: entropy.Poison})
+			for i := range s.Nonces {
+				st1, err := type5.BatchedPrivateClient{}.CreateTokenRequestWithBlinds(s.Challenge, s.Nonces[i:i+1], w.I5[s.Iss].KeyID, w.I5[s.Iss].Iss.TokenKey(), s.FixedBlinds[i:i+1])
+				res.Evals++
+				if err != nil {
+					continue
+				}
+				single := st1.Request().Marshal()
+				// batch encoding: type(2) key id(1) varint length, then 32-byte elements
+				_, pl := refVarint(base[3:])
+				if pl < 0 || len(single) < 4+32 || len(base) < 3+pl+32*(i+1) {
+					continue
+				}
+				if !bytes.Equal(base[3+pl+32*i:3+pl+32*(i+1)], single[4:36]) {
+					res.Violate("C11/type5/element-not-function-of-its-blind", fmt.Sprintf("element %d of a %d-token request made with fixed blinds differs from the one-token request made from the same nonce and blind", i, len(s.Nonces)), -1)
+					break
+				}
+			}
+			w.Ent.SetFault(entropy.Fault{})
+		}
+		// type 2: purity also for salts of other lengths (the token cannot be finalized then —
+		// only request creation is judged)
+		if s.Type == 2 {
+			for _, sl := range []int{0, 1, 47, 49} {
+				salt := core.NewRand(uint64(sl) + 11).Bytes(sl)
+				mk := func() ([]byte, error) {
+					st, err := type2.BasicPublicClient{}.CreateTokenRequestWithBlind(s.Challenge, s.Nonces[0], w.I2[s.Iss].KeyID, &w.I2[s.Iss].Key.PublicKey, s.FixedBlinds[0], salt)
+					if err != nil {
+						return nil, err
+					}
+					return st.Request().Marshal(), nil
+				}
+				w.Ent.Begin("client", fmt.Sprintf("s%d/pure/salt%d", s.ID, sl))
+				a, ea := mk()
+				reads := w.Ent.Reads
+				w.Ent.Begin("client", fmt.Sprintf("s%d/pure/salt%d/other", s.ID, sl))
+				w.Ent.SetStream(91)
+				b2, eb := mk()
+				w.Ent.SetStream(0)
+				res.Evals++
+				if (ea == nil) != (eb == nil) || (ea == nil && (!bytes.Equal(a, b2) || reads != 0)) {
+					res.Violate("C11/type2/not-pure", fmt.Sprintf("fixed-blind request creation with a %d-byte salt is not a pure function of its arguments (%d entropy reads)", sl, reads), -1)
+				}
+			}
+		}
 	}
 	// both sessions of every pair over the wire; the second under another entropy stream
 	w.Observers = append(w.Observers, func(o *world.Outcome) {
